@@ -22,6 +22,7 @@ type pathEnv struct {
 	phis  map[*ssa.Phi]ssa.Value // phi -> incoming value chosen on this path
 	facts map[ssa.Value]nilness  // branch facts collected on this path
 	flag  bool                   // rule-specific: "failure recorded" on this path
+	bools map[ssa.Value]bool     // assumed outcomes of boolean values (rule-specific)
 	depth int
 }
 
@@ -32,6 +33,9 @@ func (e *pathEnv) clone() *pathEnv {
 	}
 	for k, v := range e.facts {
 		n.facts[k] = v
+	}
+	if e.bools != nil {
+		n.bools = e.bools // never modified after creation
 	}
 	return n
 }
@@ -184,8 +188,14 @@ func (e *pathEnv) branch(b *ssa.BasicBlock, si int) (feasible bool) {
 		}
 		return true
 	}
+	if bv, ok := e.bools[cond]; ok {
+		return bv == taken
+	}
 	// constant-propagated booleans through phis (flags)
 	rc := e.resolve(cond)
+	if bv, ok := e.bools[rc]; ok {
+		return bv == taken
+	}
 	if bv, ok := constBool(rc); ok {
 		return bv == taken
 	}
